@@ -64,6 +64,10 @@ def analyze(h, tier: str, shard: Dict[str, Any], mode: str, exclude, region, tim
 
     fn = h.fn
     B = h.B(tier)
+    from engine import api
+
+    api.CURRENT.clear()
+    api.CURRENT.update(B)
     full_sig = resolve_signature(fn)
     if isinstance(full_sig, str):
         raise RuntimeError(f"cannot resolve signature of {h.name}: {full_sig}")
